@@ -209,7 +209,7 @@ func (c *c11Conn) Prepare(q string) (driver.Stmt, error) {
 	}
 	return &c11Stmt{c: c, q: q}, nil
 }
-func (c *c11Conn) Close() error                          { return nil }
+func (c *c11Conn) Close() error { return nil }
 func (c *c11Conn) Begin() (driver.Tx, error) {
 	return c.BeginTx(context.Background(), driver.TxOptions{})
 }
@@ -3281,22 +3281,22 @@ type c11Exported struct {
 
 // c11BadDests builds a fresh destination of each kind.
 var c11BadDests = map[string]func() any{
-	"nil":                 func() any { return nil },
-	"struct-by-value":     func() any { return c11Exported{} },
-	"slice-by-value":      func() any { return []c11Exported{} },
-	"nil-struct-pointer":  func() any { return (*c11Exported)(nil) },
-	"nil-slice-pointer":   func() any { return (*[]c11Exported)(nil) },
-	"pointer-to-map":      func() any { return &map[string]any{} },
-	"pointer-to-maps":     func() any { return &[]map[string]any{} },
-	"pointer-to-chan":     func() any { var c chan int; return &c },
-	"pointer-to-pointer":  func() any { var p *c11Exported; return &p },
-	"pointer-to-any":      func() any { var x any; return &x },
-	"struct-for-rows":     func() any { return &c11Exported{} },   // misuse for the multi-row forms only
-	"slice-for-row":       func() any { return &[]c11Exported{} }, // misuse for the single-row forms only
-	"slice-of-slices":     func() any { return &[][]int64{} },
-	"unexported-untagged": func() any { return &c11Unexp{} },
-	"unexported-tagged":   func() any { return &c11UnexpTagged{} },
-	"unexported-slice":    func() any { return &[]c11Unexp{} },
+	"nil":                     func() any { return nil },
+	"struct-by-value":         func() any { return c11Exported{} },
+	"slice-by-value":          func() any { return []c11Exported{} },
+	"nil-struct-pointer":      func() any { return (*c11Exported)(nil) },
+	"nil-slice-pointer":       func() any { return (*[]c11Exported)(nil) },
+	"pointer-to-map":          func() any { return &map[string]any{} },
+	"pointer-to-maps":         func() any { return &[]map[string]any{} },
+	"pointer-to-chan":         func() any { var c chan int; return &c },
+	"pointer-to-pointer":      func() any { var p *c11Exported; return &p },
+	"pointer-to-any":          func() any { var x any; return &x },
+	"struct-for-rows":         func() any { return &c11Exported{} },   // misuse for the multi-row forms only
+	"slice-for-row":           func() any { return &[]c11Exported{} }, // misuse for the single-row forms only
+	"slice-of-slices":         func() any { return &[][]int64{} },
+	"unexported-untagged":     func() any { return &c11Unexp{} },
+	"unexported-tagged":       func() any { return &c11UnexpTagged{} },
+	"unexported-slice":        func() any { return &[]c11Unexp{} },
 	"unexported-tagged-slice": func() any { return &[]*c11UnexpTagged{} },
 }
 
